@@ -217,6 +217,7 @@ func run(c *vf.Ctx) {
 	c.Assume("a tail truncation exactly at a frame boundary is indistinguishable from the peer closing the connection: the reader obtains a strict prefix followed by EOF")
 	honest(c)
 	interop(c)
+	paddingLeak(c)
 	handshakeFaults(c)
 	mitm(c)
 	dataFaults(c)
@@ -236,6 +237,7 @@ func run(c *vf.Ctx) {
 	}
 	c.RequireCounter("canary_wire_bytes_scanned", 1_000_000)
 	c.RequireCounter("concurrent_records", 1000)
+	c.RequireCounter("padding_trials", 30)
 	for _, k := range []string{"flip", "truncate", "sig-bitflip", "sig-by-other-key", "claimed-key-of-someone-else", "sig-over-other-challenge", "relayed-signature-from-other-session", "reflection", "low-order-eph-1", "eph-substituted-after-key-agreement"} {
 		c.RequireCounter("handshake_fault:"+k, 1)
 	}
@@ -433,15 +435,6 @@ func interop(c *vf.Ctx) {
 		a, b, ab, ba := newDuplex()
 		_ = b
 		ref := newRefPeer(km, r)
-		// OBSERVATION (not asserted, outside the property statement): first move a marker over an unrelated
-		// real<->real connection in this process, then look for it in the frame padding the reference peer receives.
-		marker := []byte(fmt.Sprintf("MARKER-OF-ANOTHER-CONNECTION-%016x", r.Uint64()))
-		if q, ok := connect(c, tag+"/other"); ok {
-			blob := bytes.Repeat(marker, frameData/len(marker))
-			q.sa.Write(blob)
-			readUntil(q.sb, len(blob), r)
-			q.close()
-		}
 		res, ok := refHandshake(c, ref, a, ka, ab, ba, w)
 		if !ok {
 			a.Close()
@@ -481,13 +474,10 @@ func interop(c *vf.Ctx) {
 			}
 			got = append(got, pl...)
 			data = data[frameSealed:]
-			if len(ref.lastPadding) >= len(marker) {
-				c.Count("observation_frames_with_padding", 1)
+			if len(ref.lastPadding) > 0 {
+				c.Count("interop_frames_with_padding", 1)
 				if !bytes.Equal(ref.lastPadding, make([]byte, len(ref.lastPadding))) {
-					c.Count("observation_frames_with_nonzero_padding", 1)
-				}
-				if bytes.Contains(ref.lastPadding, marker) {
-					c.Count("observation_padding_contains_plaintext_of_another_connection", 1)
+					c.Count("interop_frames_with_nonzero_padding", 1)
 				}
 			}
 		}
@@ -923,4 +913,48 @@ func mitm(c *vf.Ctx) {
 		}
 		c.Count("mitm_eph_substitution_failed_both", 1)
 	})
+}
+
+// paddingLeak: the bytes after the payload of a short frame must not disclose what the node wrote on
+// ANOTHER connection (the frame buffers come from a process-wide pool). Sequence: connection X
+// (real<->real) writes a frame full of a marker; then, on the same goroutine, connection Y's real side
+// writes ONE byte to the reference peer, which decrypts the frame and inspects the 1023 padding bytes.
+func paddingLeak(c *vf.Ctx) {
+	r := c.Rng(70_000)
+	for i := 0; i < c.N(40, 200); i++ {
+		tag := fmt.Sprintf("padding/%d/%d", c.Seed, i)
+		w := map[string]any{"case": tag, "seed": c.Seed}
+		a, _, ab, ba := newDuplex()
+		ref := newRefPeer(key(tag+"/ref"), r)
+		res, ok := refHandshake(c, ref, a, key(tag+"/a"), ab, ba, w)
+		if !ok || res.err != nil {
+			a.Close()
+			continue
+		}
+		q, ok := connect(c, tag+"/x")
+		if !ok {
+			a.Close()
+			continue
+		}
+		marker := []byte(fmt.Sprintf("PLAINTEXT-OF-CONNECTION-X-%016x|", r.Uint64()))
+		blob := bytes.Repeat(marker, frameData/len(marker))
+		hsLen := ab.wireLen()
+		q.sa.Write(blob)          // connection X: alice -> bob
+		res.sc.Write([]byte{'y'}) // connection Y: one byte to the reference peer
+		wire, _ := ab.wireCopy()
+		c.Case(tag, true)
+		if _, err := ref.open(wire[hsLen : hsLen+frameSealed]); err == nil {
+			c.Count("padding_trials", 1)
+			if !bytes.Equal(ref.lastPadding, make([]byte, len(ref.lastPadding))) {
+				c.Count("padding_nonzero", 1)
+			}
+			if off := bytes.Index(ref.lastPadding, marker); off >= 0 {
+				w["padding_offset"] = off
+				w["repro"] = "connection X (two real SecretConnections in this process) writes 1024 bytes of a marker; immediately afterwards connection Y's real side writes one byte to a peer; the peer decrypts that frame: the 1023 bytes after the payload contain X's marker (Write takes the frame buffer from the shared buffer pool and does not clear it)"
+				c.Violation("frame-padding-leaks-other-connection-plaintext", w, "the padding of a frame sent on connection Y contains plaintext written on connection X (offset %d of the padding)", off)
+			}
+		}
+		q.close()
+		a.Close()
+	}
 }
